@@ -37,6 +37,39 @@ theorem num_parents_rules (ins b : Nat) :
     GenF.gaeNumParents true ins b = ins ∧ GenF.gaeNumParents false ins b = b / 2 := by
   simp [GenF.esNumParents, GenF.gaeNumParents]
 
+/-- **G10b `es_check_restart_matches`** : `EvolutionStrategyEmitter._check_restart`, read as a chain of
+guarded returns, is the model's `checkRestart` for each of the three rule kinds (the guards are what
+the rule's Python value makes true: an integer passes `isinstance(.., numbers.Integral)`, the two
+names compare equal to themselves only) -/
+theorem es_check_restart_matches (itrs ns : Nat) :
+    (∀ n, GenF.esCheckRestart true false false itrs n ns = some (EsControl.checkRestart (.every n) itrs ns)) ∧
+    GenF.esCheckRestart false true false itrs 0 ns = some (EsControl.checkRestart .noImprovement itrs ns) ∧
+    GenF.esCheckRestart false false true itrs 0 ns = some (EsControl.checkRestart .basic itrs ns) := by
+  refine ⟨fun n => ?_, ?_, ?_⟩ <;> simp [GenF.esCheckRestart, EsControl.checkRestart]
+
+/-- **G19b `gae_check_restart_matches`** : the same for `GradientArborescenceEmitter._check_restart`
+against `Dqd.ruleFires` -/
+theorem gae_check_restart_matches (itrs : Nat) (status : List Nat) :
+    (∀ n, GenF.gaeCheckRestart true false false itrs n (Dqd.newSols status) =
+      some (Dqd.ruleFires (.every n) itrs status)) ∧
+    GenF.gaeCheckRestart false true false itrs 0 (Dqd.newSols status) =
+      some (Dqd.ruleFires .noImprovement itrs status) ∧
+    GenF.gaeCheckRestart false false true itrs 0 (Dqd.newSols status) =
+      some (Dqd.ruleFires .basic itrs status) := by
+  refine ⟨fun n => ?_, ?_, ?_⟩ <;> simp [GenF.gaeCheckRestart, Dqd.ruleFires]
+
+/-- a rule that is neither an integer nor one of the two names raises (`none`), in both emitters -/
+theorem check_restart_unknown_raises (itrs rule ns : Nat) :
+    GenF.esCheckRestart false false false itrs rule ns = none ∧
+    GenF.gaeCheckRestart false false false itrs rule ns = none := by
+  simp [GenF.esCheckRestart, GenF.gaeCheckRestart]
+
+/-- with an integer rule `N > 0` the emitter-side test fires exactly on every `N`-th tell -/
+theorem check_restart_every (N itrs ns : Nat) :
+    GenF.esCheckRestart true false false itrs N ns = some (decide (N ∣ itrs)) := by
+  simp only [GenF.esCheckRestart, Nat.dvd_iff_mod_eq_zero, if_true]
+  by_cases h : itrs % N = 0 <;> simp [h]
+
 /-- **G16a `ucb1_matches`** : the score computed in `BanditScheduler.ask` is the property's
 `success/selection + zeta*sqrt(ln(total success)/selection)` (total clamped at 1), for every reading of
 `sqrt` and `ln` -/
